@@ -660,7 +660,7 @@ func ensureResolvedInside(base, target string) error {
 		return err
 	}
 	// resolve the deepest existing ancestor of target (or target itself)
-	for path := target; ; {
+	for path, retries := target, 0; ; {
 		real, err := filepath.EvalSymlinks(path)
 		if err == nil {
 			rel, err := filepath.Rel(realBase, real)
@@ -676,9 +676,16 @@ func ensureResolvedInside(base, target string) error {
 		if !os.IsNotExist(err) {
 			return err
 		}
-		if _, lerr := os.Lstat(path); lerr == nil {
-			// a dangling link: what it points to would be created through it
-			return ErrPathTraversalDisallowed
+		if info, lerr := os.Lstat(path); lerr == nil {
+			if info.Mode()&os.ModeSymlink != 0 {
+				// a dangling link: what it points to would be created through it
+				return ErrPathTraversalDisallowed
+			}
+			// created in the meantime (e.g. by a concurrent push): resolve it again
+			if retries++; retries > 8 {
+				return err
+			}
+			continue
 		}
 		parent := filepath.Dir(path)
 		if parent == path {
